@@ -162,6 +162,18 @@ def _run(ctx):
         for f2 in spl:
             pv2 = ctx.slicer.local(f2, 0, path=(0,))
             ctx.inst("C03.R4", "pre-fee/spl-wrapper", pv2.has_call(prog, {"key": f.key}) and 2 in pv2.params, "the SPL wrapper returns calculate_pre_fee_amount(epoch fee, amount) or the amount itself", A._pvs(pv2), f2.loc(f2.raw["span"]))
+    elif len(pf) == 1 and not cd:
+        # the rounding helper was inlined: the gross-up function as a whole must equal the reviewed one modulo helper boundaries
+        from .kernels import same_modulo_helper_boundaries
+        f = pf[0]
+        ok = same_modulo_helper_boundaries(prog, f, "K|pre-fee-amount")
+        if not ok:
+            ctx.missing("C03.R4", "calculate_pre_fee_amount / ceil_div")
+        else:
+            ctx.inst("C03.R4", "pre-fee/ceil-div", True, "pre-fee amount = ceil_div(post * 10000, 10000 - bps) capped by maximum_fee", "ok (deep form of calculate_pre_fee_amount equals the reviewed one; ceil_div inlined)", f.loc(f.raw["span"]))
+            for f2 in prog.find_fns({"name": "calculate_pre_fee_spl_deposit_amount", "crate": "marginfi"}):
+                pv2 = ctx.slicer.local(f2, 0, path=(0,))
+                ctx.inst("C03.R4", "pre-fee/spl-wrapper", pv2.has_call(prog, {"key": f.key}) and 2 in pv2.params, "the SPL wrapper returns calculate_pre_fee_amount(epoch fee, amount) or the amount itself", A._pvs(pv2), f2.loc(f2.raw["span"]))
     else:
         ctx.missing("C03.R4", "calculate_pre_fee_amount / ceil_div")
 
